@@ -342,7 +342,8 @@ def check_auth(request, response, realm, users, encrypt=None):
 
         # validate the Authorization by re-computing it here
         # and compare it with what the user-agent provided
-        if _httpauth.checkResponse(ah, password, method=request.method, encrypt=encrypt, realm=realm):
+        # (a user without an entry has no password that could verify)
+        if password is not None and _httpauth.checkResponse(ah, password, method=request.method, encrypt=encrypt, realm=realm):
             request.login = ah['username']
             return True
 
